@@ -24,15 +24,15 @@ import (
 // C08 — PROXY-protocol listener yields the advertised address and exactly the payload.
 
 type c08Conn struct {
-	Header  []byte `json:"header"`
-	Class   string `json:"class"`  // how the reference parser judges it: proxy | local | reject | either
-	Src     string `json:"src"`    // expected source ip:port for class proxy
-	Dst     string `json:"dst"`
-	Desc    string `json:"desc"`
-	Payload int    `json:"payload"` // payload bytes following the header
-	StallAt int    `json:"stall_at"` // stall before sending byte StallAt of header+payload (-1: none)
-	StallMs int    `json:"stall_ms"` // stall duration; 0 with StallAt>=0 means "forever"
-	Callers []string `json:"callers"` // concurrent application calls started before any byte arrives
+	Header  []byte   `json:"header"`
+	Class   string   `json:"class"` // how the reference parser judges it: proxy | local | reject | either
+	Src     string   `json:"src"`   // expected source ip:port for class proxy
+	Dst     string   `json:"dst"`
+	Desc    string   `json:"desc"`
+	Payload int      `json:"payload"`  // payload bytes following the header
+	StallAt int      `json:"stall_at"` // stall before sending byte StallAt of header+payload (-1: none)
+	StallMs int      `json:"stall_ms"` // stall duration; 0 with StallAt>=0 means "forever"
+	Callers []string `json:"callers"`  // concurrent application calls started before any byte arrives
 }
 
 type c08Case struct {
@@ -170,7 +170,7 @@ func genC08Header(t *tape.Tape) (hdr []byte, class, src, dst, desc string) {
 			append(append(append([]byte{}, v2sig...), 0x21, 0x11, 0x00, 0x04), []byte("abcd")...), // PROXY tcp4 with too short a block
 			append(append(append([]byte{}, v2sig...), 0x21, 0x21, 0x00, 0x0c), []byte("aaaabbbbccdd")...),
 			append(append(append([]byte{}, v2sig...), 0x21, 0x11, 0x00, 0x00)), // PROXY with no address block
-			append(append([]byte{}, v2sig...), 0x21, 0x11, 0xff, 0xff),          // oversized length
+			append(append([]byte{}, v2sig...), 0x21, 0x11, 0xff, 0xff),         // oversized length
 			{0x00},
 			[]byte("PROXY"),
 		}
@@ -273,12 +273,12 @@ func runC08(env *core.Env, ci any) {
 	timeout := time.Duration(c.TimeoutMs) * time.Millisecond
 	l := &proxyproto.Listener{Listener: inner, ReadHeaderTimeout: timeout}
 	type accepted struct {
-		conn     net.Conn
-		at       time.Duration
-		calls    []*c08Call
-		payload  []byte
-		readErr  error
-		finished time.Duration
+		conn                  net.Conn
+		at                    time.Duration
+		calls                 []*c08Call
+		payload               []byte
+		readErr               error
+		finished              time.Duration
 		sockRemote, sockLocal string
 	}
 	acc := make([]*accepted, len(c.Conns))
@@ -714,9 +714,9 @@ func init() {
 			}
 			return sb.String()
 		},
-		Real: []string{"proxyproto.Listener, proxyproto.Conn (header read with timeout, concurrent callers), v1 and v2 parsers; connfu.Combine", "in 1 of 5 runs the whole forwarder.HTTPProxy with ProxyProtocolConfig (X-Forwarded-For observed at a recorder origin)"},
-		Stub: stubCommon,
-		Rule: "1-3 connections per run; header drawn from v1 TCP4/TCP6 (short to longest spellings, edge ports), v1 UNKNOWN, v2 PROXY tcp4/udp4/tcp6/udp6 with 0-3 TLVs, v2 LOCAL, v2 PROXY with unspecified/unix/unassigned family bytes, unassigned commands / wrong version, and a list of malformed, truncated and oversized headers; payload 0-5000 bytes; optional stall before any byte k of the header for less or more than the header timeout, or forever; 1-4 concurrent application callers (Read, RemoteAddr, LocalAddr, Header, Write) started before any byte arrives; seeded segmentation down to single bytes. Oracle: reference parser written from the PROXY protocol specification -> accept(src,dst) | accept-local | reject | either.",
+		Real:        []string{"proxyproto.Listener, proxyproto.Conn (header read with timeout, concurrent callers), v1 and v2 parsers; connfu.Combine", "in 1 of 5 runs the whole forwarder.HTTPProxy with ProxyProtocolConfig (X-Forwarded-For observed at a recorder origin)"},
+		Stub:        stubCommon,
+		Rule:        "1-3 connections per run; header drawn from v1 TCP4/TCP6 (short to longest spellings, edge ports), v1 UNKNOWN, v2 PROXY tcp4/udp4/tcp6/udp6 with 0-3 TLVs, v2 LOCAL, v2 PROXY with unspecified/unix/unassigned family bytes, unassigned commands / wrong version, and a list of malformed, truncated and oversized headers; payload 0-5000 bytes; optional stall before any byte k of the header for less or more than the header timeout, or forever; 1-4 concurrent application callers (Read, RemoteAddr, LocalAddr, Header, Write) started before any byte arrives; seeded segmentation down to single bytes. Oracle: reference parser written from the PROXY protocol specification -> accept(src,dst) | accept-local | reject | either.",
 		Assumptions: []string{"v2 headers with more than ~1500 bytes of TLVs but below 64 KiB are not generated (whether they are 'oversized' is not stated anywhere)", "numeric edge cases the specification forbids but parsers commonly tolerate (ports above 65535, IPv6 text in a TCP4 line) are not generated"},
 	})
 }
